@@ -161,6 +161,7 @@ pub struct Ctl {
 	pub pending: Vec<Pending>,
 	pub kill_all: bool,   // scheduler ended the run (deadlock): parked threads unwind
 	pub nevents: usize,
+	pub yr: bool,           // yield after release: a thread that has just released pauses (an extra scheduling point)
 	pub ra: bool,           // release-atomic: a release directly after a release of the same thread is no scheduling point
 	pub lastrel: Vec<bool>, // per thread: its last scheduling-point operation was a release
 }
@@ -180,6 +181,7 @@ impl Ctl {
 			pending: Vec::new(),
 			kill_all: false,
 			nevents: 0,
+			yr: false,
 			ra: false,
 			lastrel: Vec::new(),
 		}
@@ -316,6 +318,10 @@ fn raw_op(addr: usize, k: Rop) -> bool {
 			c.opc += 1;
 			write!(e, "ERaw {} {} {} RUnit", me, k.name(), l).unwrap();
 			c.push_event(&e);
+			if is_rel && c.sched && c.yr && !c.ra {
+				drop(c);
+				drop(yield_point(me, Pending::Data));
+			}
 			true
 		}
 		Ans::Bool(b) => {
@@ -328,6 +334,10 @@ fn raw_op(addr: usize, k: Rop) -> bool {
 			c.opc += 1;
 			write!(e, "ERaw {} {} {} RBad", me, k.name(), l).unwrap();
 			c.push_event(&e);
+			if is_rel && c.sched && c.yr && !c.ra {
+				drop(c);
+				drop(yield_point(me, Pending::Data));
+			}
 			true
 		}
 		Ans::Block => {
